@@ -225,6 +225,64 @@ impl Schema {
     }
 }
 
+/// What `newer` no longer defines the way `older` did, as far as the wire is concerned. A field or an enum constant
+/// is identified by its name *and* by its number: a name that moved to another number is a renumbering (or a swap
+/// of two names, which changes the meaning of bytes already written); a number whose name disappeared while the
+/// number is still defined with the same type, label and oneof membership is a mere rename, which the wire does not
+/// see. Additions are never reported.
+pub fn compat_diff(older: &Schema, newer: &Schema) -> Vec<String> {
+    let mut out = vec![];
+    for (mn, pm) in &older.messages {
+        let Some(cm) = newer.messages.get(mn) else {
+            out.push(format!("message {mn} is no longer defined"));
+            continue;
+        };
+        let members = |m: &MsgDesc, f: &FieldDesc| -> std::collections::BTreeSet<u32> {
+            match f.oneof {
+                None => Default::default(),
+                Some(i) => m.fields.iter().filter(|x| x.oneof == Some(i)).map(|x| x.number).collect(),
+            }
+        };
+        for pf in &pm.fields {
+            if let Some(f) = cm.fields.iter().find(|f| f.name == pf.name) {
+                if f.number != pf.number {
+                    out.push(format!("{mn}.{}: number {} became {}", pf.name, pf.number, f.number));
+                    continue;
+                }
+            }
+            let Some(f) = cm.fields.iter().find(|f| f.number == pf.number) else {
+                out.push(format!("{mn}.{} (#{}) is no longer defined", pf.name, pf.number));
+                continue;
+            };
+            if format!("{:?} {:?}", f.ty, f.card) != format!("{:?} {:?}", pf.ty, pf.card) {
+                out.push(format!("{mn}.{} (#{}): {:?} {:?} became {:?} {:?}", pf.name, pf.number, pf.ty, pf.card, f.ty, f.card));
+            }
+            let (a, b) = (members(pm, pf), members(cm, f));
+            if !a.is_subset(&b) || (a.is_empty() != b.is_empty()) {
+                out.push(format!("{mn}.{} (#{}): oneof membership {:?} became {:?}", pf.name, pf.number, a, b));
+            }
+        }
+    }
+    for (en, vals) in &older.enums {
+        let Some(ce) = newer.enums.get(en) else {
+            out.push(format!("enum {en} is no longer defined"));
+            continue;
+        };
+        for (vn, num) in vals {
+            if let Some((_, n2)) = ce.iter().find(|v| &v.0 == vn) {
+                if n2 != num {
+                    out.push(format!("enum {en}: {vn} = {num} became {n2}"));
+                    continue;
+                }
+            }
+            if !ce.iter().any(|v| v.1 == *num) {
+                out.push(format!("enum {en}: {vn} = {num} is no longer defined"));
+            }
+        }
+    }
+    out
+}
+
 // ---------------------------------------------------------------------------------------------------------
 // value trees
 
